@@ -152,13 +152,33 @@ func verdictOf(err error) string {
 
 // resolver stub: per normalised host a queue of answers, one per lookup
 type stubResolver struct {
-	mu  sync.Mutex
-	ans map[string][][]net.IP
+	mu   sync.Mutex
+	ans  map[string][][]net.IP
+	orig map[string][][]net.IP
+}
+
+// reset restores the answer queues to what they were at the first lookup after set-up
+func (s *stubResolver) reset() {
+	s.mu.Lock()
+	defer s.mu.Unlock()
+	if s.orig == nil {
+		return
+	}
+	s.ans = map[string][][]net.IP{}
+	for k, v := range s.orig {
+		s.ans[k] = append([][]net.IP(nil), v...)
+	}
 }
 
 func (s *stubResolver) lookup(ctx context.Context, host string) ([]net.IPAddr, error) {
 	s.mu.Lock()
 	defer s.mu.Unlock()
+	if s.orig == nil {
+		s.orig = map[string][][]net.IP{}
+		for k, v := range s.ans {
+			s.orig[k] = append([][]net.IP(nil), v...)
+		}
+	}
 	q := s.ans[host]
 	if len(q) == 0 {
 		return nil, fmt.Errorf("no such host %q", host)
@@ -180,6 +200,7 @@ func (s *stubResolver) lookup(ctx context.Context, host string) ([]net.IPAddr, e
 func cmdEgress(args []string) error {
 	fs := flag.NewFlagSet("egress", flag.ExitOnError)
 	seed := fs.Uint64("seed", 1, "seed")
+	scenarioNo := 0
 	n := fs.Int("n", 3000, "random check cases")
 	nr := fs.Int("redirects", 150, "redirect scenarios")
 	outPath := fs.String("out", "-", "output")
@@ -300,6 +321,8 @@ func cmdEgress(args []string) error {
 			p.HTTPSOnly = false
 		}
 		nh := pick(r, []int{1, 2, 2, 3, 4, 12})
+		scenarioNo++
+		scenarioTag := fmt.Sprintf("s%d-%d-%d", *seed, os.Getpid(), scenarioNo)
 		type hop struct {
 			scheme, host string
 			answers      []net.IP
@@ -327,6 +350,11 @@ func cmdEgress(args []string) error {
 			k := k
 			h := hops[k]
 			handler := http.HandlerFunc(func(w http.ResponseWriter, req *http.Request) {
+				if req.URL.Path != fmt.Sprintf("/%s/hop%d", scenarioTag, k) {
+					// not a request of this scenario (a port re-used from another process or an earlier scenario)
+					w.WriteHeader(http.StatusGone)
+					return
+				}
 				mu.Lock()
 				h.arrived++
 				mu.Unlock()
@@ -343,7 +371,7 @@ func cmdEgress(args []string) error {
 				h.srv = httptest.NewServer(handler)
 			}
 			_, port, _ := net.SplitHostPort(h.srv.Listener.Addr().String())
-			urls[k] = fmt.Sprintf("%s://%s:%s/hop%d", h.scheme, h.host, port, k)
+			urls[k] = fmt.Sprintf("%s://%s:%s/%s/hop%d", h.scheme, h.host, port, scenarioTag, k)
 		}
 		stub := &stubResolver{ans: map[string][][]net.IP{}}
 		for _, h := range hops {
@@ -355,7 +383,7 @@ func cmdEgress(args []string) error {
 				stub.ans[nhost] = append(stub.ans[nhost], h.answers)
 			}
 		}
-		client := &http.Client{Timeout: 5 * time.Second, Transport: &http.Transport{
+		client := &http.Client{Timeout: 20 * time.Second, Transport: &http.Transport{
 			TLSClientConfig: &tls.Config{InsecureSkipVerify: true},
 			DialContext: func(ctx context.Context, network, addr string) (net.Conn, error) {
 				_, port, _ := net.SplitHostPort(addr)
@@ -366,9 +394,22 @@ func cmdEgress(args []string) error {
 		hd := dispatcher.NewHTTPDeliverer(client, p)
 		hd.Resolver = dispatcher.VerifLookup(stub.lookup)
 		st := queue.NewMemoryStore()
-		d := &dispatcher.PushDispatcher{Store: st, Deliverer: hd}
+		rec := &recDeliverer{inner: hd}
+		d := &dispatcher.PushDispatcher{Store: st, Deliverer: rec}
 		a := d.VerifClassify(queue.Envelope{ID: "e", Route: "/r", Target: urls[0], Attempt: 1, LeaseID: "l", Payload: []byte("x")},
-			dispatcher.TargetConfig{URL: urls[0], Timeout: 5 * time.Second, Retry: dispatcher.RetryConfig{Max: 3, Base: time.Second, Cap: time.Minute}})
+			dispatcher.TargetConfig{URL: urls[0], Timeout: 20 * time.Second, Retry: dispatcher.RetryConfig{Max: 3, Base: time.Second, Cap: time.Minute}})
+		// the targets answer 307 or 200 only: a "retry" outcome can only come from a transport error (TLS handshake or client
+		// time-out on a loaded machine) — the scenario is inconclusive then and is run again
+		for try := 0; try < 3 && strings.HasPrefix(actStr(a), "retry"); try++ {
+			mu.Lock()
+			for _, h := range hops {
+				h.arrived = 0
+			}
+			mu.Unlock()
+			stub.reset()
+			a = d.VerifClassify(queue.Envelope{ID: "e", Route: "/r", Target: urls[0], Attempt: 1, LeaseID: "l", Payload: []byte("x")},
+				dispatcher.TargetConfig{URL: urls[0], Timeout: 20 * time.Second, Retry: dispatcher.RetryConfig{Max: 3, Base: time.Second, Cap: time.Minute}})
+		}
 		arrived := 0
 		jh := make([]map[string]interface{}, 0, nh)
 		for _, h := range hops {
@@ -377,9 +418,24 @@ func cmdEgress(args []string) error {
 			h.srv.Close()
 		}
 		client.CloseIdleConnections()
-		emit(map[string]interface{}{"k": "redirect", "policy": policyJSON(p), "hops": jh, "arrived": arrived, "action": actStr(a), "urls": urls})
+		emit(map[string]interface{}{"k": "redirect", "policy": policyJSON(p), "hops": jh, "arrived": arrived, "action": actStr(a), "urls": urls, "err": rec.lastErr, "status": rec.lastStatus})
 	}
 	return nil
+}
+
+type recDeliverer struct {
+	inner      dispatcher.Deliverer
+	lastErr    string
+	lastStatus int
+}
+
+func (r *recDeliverer) Deliver(ctx context.Context, d dispatcher.Delivery) dispatcher.Result {
+	res := r.inner.Deliver(ctx, d)
+	r.lastErr, r.lastStatus = "", res.StatusCode
+	if res.Err != nil {
+		r.lastErr = res.Err.Error()
+	}
+	return res
 }
 
 func hasCIDR(p dispatcher.EgressPolicy) bool {
